@@ -48,7 +48,7 @@ theorem canMultidigit_contig {k : Comp} (h : canMultidigit c k = true) : c.iterC
   simp only [Bool.and_eq_true] at h
   exact h.1
 
-theorem tryParse8_spec (cx : Ctx c) (k : Comp) (hcm : canMultidigit c k = true) (b : Bytes) (hb : Bytes.Valid b) :
+theorem tryParse8_spec (cx : Ctx c) (k : Comp) (hcm : canMultidigit c k = true) (b : Bytes) (_hb : Bytes.Valid b) :
     tryParse8 c k b = .ok (none, b) ∨
     ∃ x, tryParse8 c k b = .ok (some x, { b with index := b.index + 8 }) ∧ b.index + 8 ≤ b.slc.length ∧
       x < c.mantissaRadix ^ 8 ∧ DigRange c.mantissaRadix b.slc b.index (b.index + 8) := by
